@@ -409,6 +409,9 @@ pub struct Run {
     pub only_parts: Vec<String>,
     /// per-case wall-clock budget for parts whose cases must terminate (searches); None = no watchdog
     pub watchdog_secs: Option<u64>,
+    /// budget for proptest's shrinking of a failing case (ms) and maximal number of shrink steps
+    pub max_shrink_ms: u32,
+    pub max_shrink_iters: u32,
 }
 
 impl Run {
@@ -435,6 +438,8 @@ impl Run {
             extra: Map::new(),
             only_parts: vec![],
             watchdog_secs: None,
+            max_shrink_ms: 120_000,
+            max_shrink_iters: 4096,
         }
     }
 
@@ -562,6 +567,7 @@ impl Run {
         let seed = self.seed;
         let part_hash = hash_of(&(id, name));
         let watchdog = self.watchdog_secs;
+        let (max_shrink_ms, max_shrink_iters) = (self.max_shrink_ms, self.max_shrink_iters);
         let running: Vec<Mutex<Option<(Instant, String)>>> = (0..workers).map(|_| Mutex::new(None)).collect();
         let finished = std::sync::atomic::AtomicUsize::new(0);
         std::thread::scope(|scope| {
@@ -607,7 +613,8 @@ impl Run {
                         let config = Config {
                             cases: per as u32,
                             failure_persistence: None,
-                            max_shrink_iters: 4096,
+                            max_shrink_iters,
+                            max_shrink_time: max_shrink_ms,
                             max_global_rejects: 1 << 30,
                             max_local_rejects: 1 << 30,
                             verbose: 0,
